@@ -57,6 +57,9 @@ class NumericArray(list):
     gfapy.ValueError
       If the array is not valid
     """
+    if len(self) == 0:
+      raise gfapy.ValueError("NumericArray is empty\n"+
+        "(an empty array has no representation as B field)")
     self.compute_subtype()
 
   def compute_subtype(self):
